@@ -559,8 +559,10 @@ type engPlan struct {
 	Coarse          bool   `json:"coarse"`            // only switch at visible steps
 	CrashAfterPhase int    `json:"crash_after_phase"` // stop and re-initialise once this phase is over (-1 / absent+flag = never)
 	HasCrashAfter   bool   `json:"has_crash_after"`
-	First           bool   `json:"first"` // beyond the explicit prefix take the first enabled actor (used by the exhaustive search)
-	DFS             int    `json:"dfs"`   // > 0: enumerate every schedule (depth-first over the choices), at most this many
+	FailRead        int    `json:"fail_read"` // > 0: the k-th keyed store lookup answers a transient error
+	Cancel          int    `json:"cancel"`    // > 0: from scheduling step k on, the context of one request waiting for persistence is cancelled
+	First           bool   `json:"first"`     // beyond the explicit prefix take the first enabled actor (used by the exhaustive search)
+	DFS             int    `json:"dfs"`       // > 0: enumerate every schedule (depth-first over the choices), at most this many
 }
 
 var engVisible = map[string]bool{"start": true, "ik-lookup": true, "ref-lookup": true, "lock": true, "read-balances": true, "alloc-txid": true,
